@@ -7,7 +7,9 @@
 #ifndef VERIF_ZSRC_H_
 #define VERIF_ZSRC_H_
 
+#include <algorithm>
 #include <atomic>
+#include <cstring>
 #include <fstream>
 #include <functional>
 #include <map>
@@ -24,7 +26,7 @@ namespace zsrc {
 
 struct Event {
   uint64_t seq;
-  int kind;  // 0 factory-enter, 1 factory-exit, 2 read, 3 skip
+  int kind;  // 0 factory-enter, 1 factory-exit, 2 read, 3 skip, 10 load-call-begin, 11 load-call-end (harness)
   std::thread::id tid;
   std::string name;
 };
@@ -32,20 +34,48 @@ struct Event {
 struct State {
   std::mutex mu;
   std::map<std::string, std::shared_ptr<const std::string>> reg;
-  std::vector<Event> log;
-  uint64_t seq = 0;
-  bool logging = false;
+  std::vector<Event> log;                 // events of threads without a thread-local log
+  std::vector<std::vector<Event>*> tlogs;  // registered thread-local logs
+  std::atomic<uint64_t> seq{0};
+  std::atomic<bool> logging{false};
+  // frozen: the registry is not written while set, so readers take no lock. Together with the
+  // thread-local logs this keeps the monitor from adding synchronisation between the loader's
+  // critical sections (which would hide races from ThreadSanitizer).
+  std::atomic<bool> frozen{false};
   std::atomic<long> factory_calls{0};
   std::atomic<long> reads{0};
   // optional gate called inside the factory (between the loader's critical sections)
   std::function<void(const std::string&)> gate;
-  // when set, any factory call is a monitor violation (C15: fixed names need no data)
-  std::atomic<long> forbidden_calls{0};
-  bool forbid = false;
 };
 inline State& st() {
   static State* s = new State;
   return *s;
+}
+inline std::vector<Event>*& tlog() {
+  static thread_local std::vector<Event>* p = nullptr;
+  return p;
+}
+// Call at thread start (before the racy part) to give the thread its own event log.
+inline void thread_log_init() {
+  if (tlog()) return;
+  auto* v = new std::vector<Event>;
+  v->reserve(4096);
+  tlog() = v;
+  std::lock_guard<std::mutex> l(st().mu);
+  st().tlogs.push_back(v);
+}
+// Merge all logs ordered by sequence number (call when no thread is logging).
+inline std::vector<Event> collect_log(bool clear = true) {
+  State& s = st();
+  std::lock_guard<std::mutex> l(s.mu);
+  std::vector<Event> all = s.log;
+  for (auto* v : s.tlogs) all.insert(all.end(), v->begin(), v->end());
+  std::sort(all.begin(), all.end(), [](const Event& a, const Event& b) { return a.seq < b.seq; });
+  if (clear) {
+    s.log.clear();
+    for (auto* v : s.tlogs) v->clear();
+  }
+  return all;
 }
 
 inline void put(const std::string& name, const std::string& bytes) {
@@ -62,9 +92,14 @@ inline void erase(const std::string& name) {
 }
 inline void log_event(int kind, const std::string& name) {
   State& s = st();
+  if (!s.logging.load(std::memory_order_relaxed)) return;
+  Event e{s.seq.fetch_add(1, std::memory_order_relaxed), kind, std::this_thread::get_id(), name};
+  if (auto* v = tlog()) {
+    v->push_back(std::move(e));
+    return;
+  }
   std::lock_guard<std::mutex> l(s.mu);
-  if (!s.logging) return;
-  s.log.push_back(Event{s.seq++, kind, std::this_thread::get_id(), name});
+  s.log.push_back(std::move(e));
 }
 
 class MemSource : public cctz::ZoneInfoSource {
@@ -72,7 +107,7 @@ class MemSource : public cctz::ZoneInfoSource {
   MemSource(std::string name, std::shared_ptr<const std::string> d)
       : name_(std::move(name)), d_(std::move(d)), pos_(0) {}
   std::size_t Read(void* ptr, std::size_t size) override {
-    st().reads++;
+    st().reads.fetch_add(1, std::memory_order_relaxed);
     log_event(2, name_);
     std::size_t n = std::min(size, d_->size() - pos_);
     if (n) memcpy(ptr, d_->data() + pos_, n);
@@ -100,18 +135,19 @@ inline std::unique_ptr<cctz::ZoneInfoSource> Factory(
     const std::string& name,
     const std::function<std::unique_ptr<cctz::ZoneInfoSource>(const std::string&)>& fallback) {
   State& s = st();
-  s.factory_calls++;
-  if (s.forbid) s.forbidden_calls++;
+  s.factory_calls.fetch_add(1, std::memory_order_relaxed);
   log_event(0, name);
-  std::function<void(const std::string&)> gate;
   std::shared_ptr<const std::string> bytes;
   bool ours = name.compare(0, 2, "V/") == 0;
-  {
+  if (s.frozen.load(std::memory_order_relaxed)) {
+    auto it = s.reg.find(name);
+    if (it != s.reg.end()) bytes = it->second;
+  } else {
     std::lock_guard<std::mutex> l(s.mu);
-    gate = s.gate;
     auto it = s.reg.find(name);
     if (it != s.reg.end()) bytes = it->second;
   }
+  const std::function<void(const std::string&)>& gate = s.gate;  // set before threads start
   if (gate) gate(name);
   std::unique_ptr<cctz::ZoneInfoSource> r;
   if (ours) {
